@@ -250,6 +250,14 @@ func LockYield() {
 	}
 	r := rng{s: h}
 	k4 := r.intn(4)
+	if k4 > 1 {
+		return
+	}
+	// never the scheduler itself: a harness that calls into the tool from the root goroutine (a cache reset followed by
+	// a new writer) means ONE action; were it to yield or be descheduled half way, other actors would run inside it
+	if g := w.rootG.Load(); g != 0 && g == goid() {
+		return
+	}
 	if k4 == 0 {
 		runtime.Gosched()
 		return
@@ -259,11 +267,6 @@ func LockYield() {
 	// drawn duration. Everything the following stimuli make runnable overtakes it right in front of its critical
 	// section, as a thread the operating system took off the processor would be. Pure function of salt and site.
 	if w.Park && k4 == 1 && r.intn(2) == 0 {
-		// never the scheduler itself: a harness that calls into the tool from the root goroutine (a cache reset, a new
-		// writer) means ONE action; were it descheduled half way, the clock would move and other actors would run inside it
-		if g := w.rootG.Load(); g != 0 && g == goid() {
-			return
-		}
 		w.parks.Add(1)
 		w.parkedNow.Add(1)
 		time.Sleep(parkDur[r.intn(len(parkDur))])
